@@ -394,7 +394,7 @@ class C13(PropCheck):
         except Stop:
             return dict(out=None, batches=batches[:3], gave_up=True)
         o = np.asarray(o)
-        out = dict(out=[[float(v) for v in row] for row in o.reshape(len(o), -1)], shape=list(o.shape), batches=batches)
+        out = dict(out=[[float(v) for v in np.atleast_1d(row)] for row in o], shape=list(o.shape), batches=batches)
         if box is None:
             o2 = GMDistribution.rvs(means, cov, w, size=case['size'], random_state=np.random.RandomState(case['seed']))
             out['same_without_constraint'] = bool(np.array_equal(np.asarray(o2), o))
